@@ -247,7 +247,7 @@ def meta_to_job(prog: dict, meta: dict) -> dict | None:
     if k == "redeliver":
         return {"kind": "redeliver", "prog": prog, "cases": [(meta["victim"], meta["after"])],
                 "opts": {"restart": meta.get("restart", False), "reset_bloom": meta.get("reset", False),
-                         "trust": meta.get("trust", False)}}
+                         "trust": meta.get("trust", False), "fault": meta.get("fault", False)}}
     if k == "operator":
         return {"kind": "operator", "prog": prog, "seeds": [meta["seed"]],
                 "opts": {"pause_at": meta["pause_at"], "unpause_after": meta["unpause_after"], "restart": meta["restart"],
